@@ -149,10 +149,6 @@ func (c *codegen) traverseGlobals() bool {
 				count: maxCnt,
 			}
 		}
-		// Function literals of the global initialisers and of init() functions
-		// go after the method, not inside of it.
-		c.convertPendingLambdas(nil, c.mainPkg.Types)
-		c.scope = nil
 	}
 
 	// store auxiliary variables after all others.
